@@ -62,6 +62,24 @@ PROPS = {
         "min_quick": {"evaluations": 900, "c01.bytes_compared": 50_000_000, "c01.streams_completed": 2000},
         "min_thorough": {"evaluations": 30000, "c01.bytes_compared": 1_000_000_000},
     },
+    "C02": {
+        "level": "exploration",
+        "rule": "two workloads. (1) must-deliver: seeded simulations whose fault period (loss, bursts, blackhole windows, duplication, "
+                "corruption, reordering, targeted drops of MAX_* / *_BLOCKED / HANDSHAKE_DONE datagrams, dropped handshake datagrams) is finite "
+                "(<= 5 s) with idle/handshake timeouts >= 4x that period + 2 s, benign applications, tiny windows forcing every blocking kind: "
+                "no operation may fail, every finished stream must complete, nothing may be pending at the virtual deadline, the simulator must "
+                "not stall. (2) never-recovers: an enumerated finite fault set - permanent blackhole after datagram #k (k = 0..39) of the "
+                "client->server, server->client or both directions, plus time-based blackholes - where every endpoint must report the failure "
+                "within max(idle, 3 PTO) of the last possible idle-timer restart (max_handshake_duration before the handshake completes). "
+                "Non-trivial = blocking / loss / drops occurred; distinct = hash of configuration x mechanisms observed.",
+        "assumptions": SIM_ASSUME + ["liveness is restated as bounded progress in virtual time (T_max 900 s / 300 s)",
+                                     "Retry is off in must-deliver runs: expired Retry tokens (1-2 s lifetime) are dropped silently, which RFC 9000 8.1.2 permits"],
+        "tiers": {"quick": [sim_job("C02", 640), sim_job("C02bh", 160)], "thorough": [sim_job("C02", 16000), sim_job("C02bh", 3200)]},
+        "min_quick": {"evaluations": 760, "c02.must_deliver_runs": 600, "c02.never_recovers_runs": 150, "c02.failure_reports_timed": 150,
+                      "c02.runs_blocked_on.stream-credit": 200, "c02.runs_blocked_on.connection-credit": 150,
+                      "c02.runs_blocked_on.stream-count": 100, "c02.runs_blocked_on.congestion": 200, "c02.flows_completed": 5000},
+        "min_thorough": {"evaluations": 18000, "c02.must_deliver_runs": 15000, "c02.never_recovers_runs": 3000},
+    },
     "C03": {
         "level": "exploration",
         "rule": "each evaluation is one seeded end-to-end simulation biased to tiny and odd limits (1, 2, 1000, 2^14+-1 byte windows; "
@@ -93,6 +111,21 @@ PROPS = {
         "tiers": {"quick": [sim_job("C09", 960)], "thorough": [sim_job("C09", 32000)]},
         "min_quick": {"evaluations": 900, "c09.loss_declarations": 100_000, "c09.cc_calls_checked": 2_000_000},
         "min_thorough": {"evaluations": 30000, "c09.loss_declarations": 3_000_000},
+    },
+    "C11": {
+        "level": "exploration",
+        "rule": "handshake-centred seeded simulations, three kinds by scenario index: (0) enumerated single and double drops of handshake "
+                "datagram positions 0..11 in either direction (finite fault set, covered once per 3*2*12*13*2 indices), (1) random loss / "
+                "duplication / far reordering during the first seconds with client address rebinding mid-handshake, (2) 4-24 datagrams that "
+                "belong to no connection (garbage, short header + unknown CID, unknown version, Version Negotiation, undersized Initials; "
+                "sizes 1..1500) fired from raw sockets. Non-trivial = drops/duplicates/Retry/rebinding occurred or the server came within "
+                "one datagram of the 3x limit; distinct = hash of configuration x mechanisms observed.",
+        "assumptions": SIM_ASSUME + ["the tap counts every datagram delivered to the server's socket as received (>= what the server credits: lenient)",
+                                     "stateless resets are enabled with a deterministic token generator (the default provider keeps them off)"],
+        "tiers": {"quick": [sim_job("C11", 960)], "thorough": [sim_job("C11", 24000)]},
+        "min_quick": {"evaluations": 900, "c11.unvalidated_datagrams_checked": 2500, "c11.probes_delivered": 3000,
+                      "c11.probe_reply.stateless-reset-like": 500, "c11.client_initial_datagrams": 4000, "c11.runs_server_at_limit": 20},
+        "min_thorough": {"evaluations": 23000, "c11.unvalidated_datagrams_checked": 60000},
     },
     "C12": {
         "level": "exploration",
